@@ -22,6 +22,7 @@ Definition dot : N := 46.                       (* the engine fixes the delimite
 Definition colon2 : str := [58; 58].            (* "::" of makeFieldTokenKey *)
 
 Definition nonempty (s : str) : bool := match s with [] => false | _ => true end.
+Definition nonempty_list {A} (l : list A) : bool := match l with [] => false | _ => true end.
 
 (* buffer after descending into key: no delimiter after an empty parent *)
 Definition join (parent key : str) : str :=
